@@ -478,6 +478,8 @@ def real_mof(store, sha, haves, wants, shallow, tagged, rng=None):
         return ("err", "key", None)
     except AssertionError:
         return ("err", "type", None)
+    except Exception as e:      # noqa: BLE001 — a behaviour the model does not have
+        return ("err", "exc-" + type(e).__name__, None)
     if len(set(out)) != len(out):
         return ("dup", out, None)
     return ("ok", {rev[x] for x in out}, remote_has)
@@ -578,10 +580,14 @@ def run_mof_cases(ctx, stream, cases, orders=(0, 1, 7)):
     for c in cases:
         for o in orders:
             lines.append(mof_line(c, o))
+        lines.append(mof_line(c, 0).replace("c05.mof", "c05.remotehas", 1))
+        lines.append(" ".join(["c05.welltyped"] + c["g"].tokens(c["present"])))
+        lines.append(" ".join(["c05.closure"] + c["g"].tokens(c["present"]) + [ids_arg("R", c["wants"])]))
     outs = ctx.driver.batch(lines)
-    k = len(orders)
+    k = len(orders) + 3
     for idx, c in enumerate(cases):
-        mouts = outs[idx * k:(idx + 1) * k]
+        mouts = outs[idx * k:(idx + 1) * k - 3]
+        m_rh, m_wt, m_cl = outs[(idx + 1) * k - 3], outs[(idx + 1) * k - 2], outs[(idx + 1) * k - 1]
         g = c["g"]
         objs, sha = materialise(g)
         store = MemoryObjectStore()
@@ -613,6 +619,15 @@ def run_mof_cases(ctx, stream, cases, orders=(0, 1, 7)):
             ctx.disagree(stream + ".impl-order", case_json(c), mouts[0], canon)
         if mouts[0] != canon[0]:
             ctx.disagree(stream, case_json(c), mouts[0], canon[0])
+        if reals[0][0] == "ok" and m_rh != "ok " + show_ids(reals[0][2]):
+            ctx.disagree(stream + ".remote_has", case_json(c), m_rh, "ok " + show_ids(reals[0][2]))
+        py_cl = "ok " + show_ids(c["g"].closure(c["wants"], present=c["present"]))
+        if m_cl != py_cl:
+            # the oracle's closure (Python) and the model's `closure` (= Reach, theorem closure_eq_reach) differ
+            ctx.disagree(stream + ".closure", case_json(c), m_cl, py_cl)
+        if m_wt != "1":
+            # the generator only builds well-typed stores: hypothesis `WellTyped` of the completeness theorems
+            ctx.disagree(stream + ".welltyped", case_json(c), m_wt, "1")
         for res in reals:
             if res[0] == "ok":
                 mof_oracle(ctx, stream, c, res[1])
@@ -625,6 +640,125 @@ def _stream_mof(ctx):
     rng = ctx.rng
     cases = [gen_mof_case(rng) for _ in range(ctx.budget(1500, mult=8))]
     run_mof_cases(ctx, "mof", cases)
+
+
+# ------------------------------------------------------------------------------------------------
+# stream nego.*: have/ack transcripts, model walkers vs the real server-side graph walkers
+
+class _NegoProto:
+    def __init__(self, lines):
+        self.lines = list(lines)
+        self.out = []
+
+    def read_pkt_line(self):
+        from dulwich.errors import HangupException
+        if not self.lines:
+            raise HangupException
+        return self.lines.pop(0)
+
+    def write_pkt_line(self, data):
+        self.out.append(data)
+
+
+class _NegoHandler:
+    def __init__(self, proto, stateless):
+        self.proto = proto
+        self.stateless_rpc = stateless
+        self.advertise_refs = False
+        self._done_received = False
+
+    def notify_done(self):
+        self._done_received = True
+
+
+def _sline(tok, rev):
+    if tok is None:
+        return "?"
+    t = tok.rstrip(b"\n").split(b" ")
+    if t[0] == b"NAK":
+        return "N"
+    x = rev.get(t[1], "?")
+    kind = t[2] if len(t) > 2 else b""
+    return {b"": "A", b"continue": "C", b"common": "M", b"ready": "R"}.get(kind, "?") + str(x)
+
+
+def real_nego(store, sha, rev, mode, stateless, no_done, wants, lines):
+    from dulwich.errors import HangupException
+    from dulwich.protocol import MULTI_ACK, MULTI_ACK_DETAILED, SINGLE_ACK
+    from dulwich.server import _ProtocolGraphWalker
+    pk = []
+    for ln in lines:
+        if ln == "f":
+            pk.append(None)
+        elif ln == "d":
+            pk.append(b"done\n")
+        else:
+            pk.append(b"have " + sha[int(ln[1:])] + b"\n")
+    proto = _NegoProto(pk)
+    handler = _NegoHandler(proto, stateless)
+    walker = _ProtocolGraphWalker(handler, store, lambda ref: None, lambda: {})
+    walker.set_ack_type({"single": SINGLE_ACK, "multi": MULTI_ACK, "detailed": MULTI_ACK_DETAILED}[mode])
+    walker.set_wants([sha[w] for w in wants])
+    try:
+        haves = store.find_common_revisions(walker)
+    except HangupException:
+        return "err protocol", None
+    except IndexError:
+        return "err other", None
+    except Exception as e:      # noqa: BLE001 — anything else is a behaviour the model does not have
+        return f"exc {type(e).__name__}", None
+    n = len(proto.out)
+    try:
+        ok = walker.handle_done(not no_done, handler._done_received)
+    except Exception as e:      # noqa: BLE001
+        return f"exc handle_done {type(e).__name__}", None
+    show = lambda l: ",".join(l) or "-"       # noqa: E731
+    return (f"ok haves={show([str(rev[h]) for h in haves])} out={show([_sline(x, rev) for x in proto.out[:n]])} "
+            f"done={int(handler._done_received)} pack={int(bool(ok))} final={show([_sline(x, rev) for x in proto.out[n:]])}",
+            [rev[h] for h in haves])
+
+
+def _stream_nego(ctx):
+    from dulwich.object_store import MemoryObjectStore
+    rng = ctx.rng
+    cases = []
+    for _ in range(ctx.budget(500, mult=6)):
+        g = gen_graph(rng, rng.choice([8, 12, 20, 30]))
+        commits = g.ids("commit")
+        wants = rng.sample(commits * 3 + g.ids("tag"), rng.choice([1, 1, 2]))
+        absent = [g.new_absent() for _ in range(2)]
+        lines = []
+        for _ in range(rng.choice([0, 1, 2, 3, 5, 8])):
+            r = rng.random()
+            if r < 0.6:
+                lines.append(f"h{rng.choice(commits)}")
+            elif r < 0.8:
+                lines.append(f"h{rng.choice(absent)}")
+            else:
+                lines.append("f")
+        lines += rng.choice([["d"], ["d"], ["f"], ["f", "d"], []])
+        cases.append((g, rng.choice(ACK_MODES), rng.random() < 0.4, rng.random() < 0.4, sorted(set(wants)), lines))
+    reqs = [" ".join(["c05.nego"] + g.tokens() + [f"M:{m}", f"L:{int(st)}", f"N:{int(nd)}", ids_arg("W", w),
+                                                  "Q:" + (",".join(ln) or "-")]) for g, m, st, nd, w, ln in cases]
+    outs = ctx.driver.batch(reqs)
+    for (g, mode, stateless, nd, wants, lines), mout in zip(cases, outs):
+        objs, sha = materialise(g)
+        rev = {v: k for k, v in sha.items()}
+        store = MemoryObjectStore()
+        for o in objs.values():
+            store.add_object(o)
+        real, haves = real_nego(store, sha, rev, mode, stateless, nd, wants, lines)
+        case = {"graph": g.to_json(), "mode": mode, "stateless": stateless, "no_done": nd, "wants": wants, "lines": lines}
+        ctx.count("nego", (tuple(g.tokens()), mode, stateless, nd, tuple(wants), tuple(lines)), real.startswith("ok"),
+                  f"{mode}:{'rpc' if stateless else 'duplex'}:{real[:3]}" + (":pack" if "pack=1" in real else ""))
+        if real != mout:
+            ctx.disagree("nego", case, mout, real)
+        if haves is not None:
+            claimed = {int(x[1:]) for x in lines if x.startswith("h")}
+            bad = [h for h in haves if h not in claimed or h not in g.objs]
+            if bad:
+                ctx.oracle_fail("nego", case, f"the server treats {bad} as common although the client did not claim it "
+                                              f"or the server does not have it", "nego-foreign-have")
 
 
 # ------------------------------------------------------------------------------------------------
@@ -988,8 +1122,11 @@ def do_fetch(world, servers, tr, var, src, dst, want_refs: dict, depth=None, fet
                 if res.refs.get(n) == world.sha[i]:
                     r.refs[n] = world.sha[i]
         if buf:
-            ids, deltas = _pack_ids(b"".join(buf), world)
-            out["wire"], out["deltas"] = set(ids), deltas
+            try:
+                ids, deltas = _pack_ids(b"".join(buf), world)
+                out["wire"], out["deltas"] = set(ids), deltas
+            except Exception as e:      # noqa: BLE001 — the pack on the wire cannot be parsed by the harness
+                out["wire_error"] = f"{type(e).__name__}: {str(e)[:200]}"
         elif servers.sent_log:
             out["wire"] = {s for pack in servers.sent_log for s in pack}
         return out
@@ -1279,12 +1416,21 @@ def check_receiver(ctx, stream, world, case, path, before, shallow_before, trans
         result = {"after": after, "shallow": shallow_after, "new": new}
     finally:
         r.close()
-    if fsck:
+    if fsck or res.get("deltas"):
         rc, txt = _git(["-C", path, "fsck", "--connectivity-only"])
         if rc != 0 and not missing:       # (an incomplete receiver has been reported above, with its class)
             ctx.oracle_fail(stream, case, "git fsck --connectivity-only fails on the receiver although every object "
                                           "reachable from its refs is present: " + txt[-300:], "fsck")
         ctx.count(stream + ".fsck", (path,), rc == 0, "clean" if rc == 0 else "fails")
+        # every installed pack is self-contained (thin packs were completed): git verify-pack resolves all deltas
+        pdir = os.path.join(path, "objects", "pack")
+        for f in sorted(os.listdir(pdir)) if os.path.isdir(pdir) else []:
+            if f.endswith(".idx"):
+                rc2, txt2 = _git(["verify-pack", os.path.join(pdir, f)])
+                ctx.count(stream + ".verify-pack", (path, f), rc2 == 0, "ok" if rc2 == 0 else "bad")
+                if rc2 != 0:
+                    ctx.oracle_fail(stream, case, f"installed pack {f} does not verify (unresolved delta base?): "
+                                    + txt2[-200:], "pack-not-self-contained")
     return result
 
 
@@ -1295,7 +1441,7 @@ EXPECTED_FAILURES = {
     "client-single-ack-parse":
         "dulwich client, multi_ack off: `_handle_upload_pack_head` indexes parts[2] of a two-token `ACK <sha>` line "
         "(IndexError) when an ACK arrives while haves are still being sent (timing dependent); when the ACK arrives "
-        "later it is left unread and taken for side-band data (`Invalid sideband channel 65`)",
+        "later it is left unread and taken for side-band data (`Invalid sideband channel 65`) or for the pack header",
     "client-push-shallow-advertisement":
         "dulwich client pushing to a shallow C git repository: receive-pack advertises `shallow <sha>` lines, which "
         "read_pkt_refs_v1 takes for a ref line (AssertionError: Invalid object name b'shallow')",
@@ -1333,7 +1479,8 @@ def expected_failure(tr, var, op, err, receiver_shallow=False):
         return "server-push-shallow-thin-base"
     if tr in ("tcp", "cgit-sub") and var.get("ack") == "single" and err.startswith("IndexError"):
         return "client-single-ack-parse"
-    if tr == "cgit-sub" and var.get("ack") == "single" and "Invalid sideband channel 65" in err:
+    if tr == "cgit-sub" and var.get("ack") == "single" and ("Invalid sideband channel 65" in err or
+                                                            ("Invalid pack header" in err and "ACK" in err)):
         return "client-single-ack-parse"
     if op["op"] == "push" and tr == "cgit-sub" and receiver_shallow and "Invalid object name b'shallow'" in err:
         return "client-push-shallow-advertisement"
@@ -1361,6 +1508,19 @@ def _failed(ctx, stream, case, tr, var, op, res, expectation, servers=None, shal
     ctx.disagree(stream + ".unexpected-failure", case, expectation, res.get("err"))
 
 
+def check_receiver_safe(ctx, stream, world, case, path, before, shallow_before, *a, **kw):
+    """check_receiver, with a receiver the real code can no longer read reported as a failure of the property
+    (the objects are then certainly not retrievable byte-identically) instead of crashing the harness."""
+    try:
+        return check_receiver(ctx, stream, world, case, path, before, shallow_before, *a, **kw)
+    except core.InfraError:
+        raise
+    except Exception as e:      # noqa: BLE001
+        ctx.oracle_fail(stream, case, f"the receiving repository cannot be read after the transfer: "
+                                      f"{type(e).__name__}: {str(e)[:300]}", "receiver-unreadable")
+        return {"after": set(before), "shallow": set(shallow_before), "new": set()}
+
+
 def _incomplete_class(push, depth, shallow_before, sender_shallow):
     """Failing-input class of an incomplete receiver (used to match known findings narrowly)."""
     if push and sender_shallow:
@@ -1374,8 +1534,8 @@ def _incomplete_class(push, depth, shallow_before, sender_shallow):
 
 def tag_follow_ids(g, srefs, base):
     """Objects a tag-following client may additionally receive: the tag refs of the sender (annotated or
-    lightweight) whose peeled target is in `base`, with everything they reach."""
-    t = [v for n, v in srefs.items() if n.startswith(b"refs/tags/") and g.peel(v) in base]
+    lightweight) whose peeled target — or whose tag object itself — is in `base`, with everything they reach."""
+    t = [v for n, v in srefs.items() if n.startswith(b"refs/tags/") and (g.peel(v) in base or v in base)]
     return {i for i in g.closure(t) if i in g.objs}
 
 
@@ -1436,7 +1596,7 @@ def run_scenario(ctx, servers, sc, ops, stream="e2e"):
                 _failed(ctx, stream, case, tr, var, op, res, "transfer succeeds", servers, shallow)
                 recv_ids, shallow = repo_state(world, dst)    # a failed transfer may leave objects / shallow info behind
                 continue
-            out = check_receiver(ctx, stream, world, case, dst, recv_ids, shallow, wants, allowed, res,
+            out = check_receiver_safe(ctx, stream, world, case, dst, recv_ids, shallow, wants, allowed, res,
                                  depth=op.get("depth"), fsck=do_fsck, fetch_all=(kind == "fetchall"),
                                  depth_tips=depth_tips, proto2=(tr == "cgit-sub" and var.get("proto") == 2))
             recv_ids, shallow = out["after"], out["shallow"]
@@ -1451,7 +1611,7 @@ def run_scenario(ctx, servers, sc, ops, stream="e2e"):
                 continue
             roots = set(sc["srefs"].values())
             allowed = {i for i in g.closure(roots) if i in g.objs}
-            check_receiver(ctx, stream, world, case, cpath, set(), set(), roots, allowed, res, depth=op.get("depth"),
+            check_receiver_safe(ctx, stream, world, case, cpath, set(), set(), roots, allowed, res, depth=op.get("depth"),
                            fsck=do_fsck)
         else:   # push: the roles are swapped — `src` sends to `dst`
             push_refs = {n: sc["srefs"][n] for n in op["refs"]}
@@ -1480,7 +1640,7 @@ def run_scenario(ctx, servers, sc, ops, stream="e2e"):
                 _failed(ctx, stream, case, tr, var, dict(op, sender_shallow=sender_shallow), res, "push succeeds", servers, shallow)
                 recv_ids, shallow = repo_state(world, dst)
                 continue
-            out = check_receiver(ctx, stream, world, case, dst, recv_ids, shallow, roots, allowed, res, fsck=do_fsck,
+            out = check_receiver_safe(ctx, stream, world, case, dst, recv_ids, shallow, roots, allowed, res, fsck=do_fsck,
                                  push=True, sender_shallow=sender_shallow)
             recv_ids, shallow = out["after"], out["shallow"]
 
@@ -1545,6 +1705,14 @@ def gen_ops(rng, sc, transports):
         if kind in ("fetch", "clone", "fetchall") and rng.random() < 0.2:
             op["depth"] = rng.choice([1, 2, 3])
         ops.append(op)
+        if kind in ("fetch", "fetchall") and op.get("depth") and rng.random() < 0.6:
+            # deepen: the same refs again with a larger depth (possibly over another transport)
+            tr2 = rng.choice(transports)
+            kind2 = kind if not (kind == "fetchall" and tr2 in GIT_TRANSPORTS) else "fetch"
+            op2 = {"op": kind2, "tr": tr2, "var": gen_variant(rng, tr2, kind2), "depth": op["depth"] + rng.choice([1, 2])}
+            if kind2 == "fetch":
+                op2["refs"] = op.get("refs", names)
+            ops.append(op2)
     return ops
 
 
@@ -1581,6 +1749,7 @@ def run(ctx: core.Ctx):
     ctx.extra_cov["expected_failures"] = EXPECTED_FAILURES
     _run_corpus(ctx)
     _stream_mof(ctx)
+    _stream_nego(ctx)
     servers = Servers()
     servers.start_capture()
     try:
@@ -1622,7 +1791,7 @@ def search(ctx: core.Ctx):
     seen = 0
     for dgr in ctx.disagreements[:20]:
         c = dgr["case"]
-        if "graph" not in c:
+        if "graph" not in c or "present" not in c:
             continue
         base = case_from_json(c)
         g = base["g"]
